@@ -1,5 +1,5 @@
 # configuration of ./check for property C11 (see props_config.py)
-CONFIG = {'gen': [],
+CONFIG = {'gen': ['ConstsC11'],
  'rule': 'cases = real loopback TCP pairs (net.Listen 127.0.0.1:0). send: the real Send writes to a peer that reads to EOF (payload '
          'lengths 0,1,..,0xFFFF,0x10000,0x1FFFF,0x20000,0x2FFFF,0x30000 and random); recv: a scripted peer writes RFC 1002 frames in a '
          'random segmentation (1-byte writes, pauses, MSS-sized and 64 KiB chunks) and closes after EVERY byte offset of short frame '
@@ -13,14 +13,21 @@ CONFIG = {'gen': [],
  'trusted': ['io.ReadFull / net.Conn semantics (contract only)'],
  'technique': 'Lean 4 proof (induction over the frame list, arithmetic of the 17-bit length) about a hand model of Send/Receive over a '
               'byte stream; model tied to the Go code by differential correspondence through real loopback sockets; RFC 1002 oracle on the '
-              'same inputs',
+              'same inputs; constants regenerated from the source on every run by a go/ast fact extractor (Gen/ConstsC11: header size 4, '
+              'type byte index and value, the 17-bit length mask, extension bit and shifts of Send and Receive, the maximum length) and '
+              'proved equal to the ones the model uses by rfl/decide (7 theorems consts_match_model_*)',
  'level_text': 'Proved in Lean for all inputs about a hand model of NBTTransport.Send/Receive (with fixes/C11-17bit-length.diff): '
                'frame_roundtrip (every list of payloads of 0..0x1FFFF bytes is received as exactly that list), send_receive, '
                'oversize_refused (> 0x1FFFF is an error, nothing written), cut_is_error and cut_yields_prefix (a stream ending at any '
                'offset yields only whole sent messages, then an error), receive_total, frame_is_rfc1002, and readFullSeg_contract / '
                'segmentation_independent (the ReadFull loop over arbitrary TCP read sizes meets its contract). The model is tied to the '
-               'code on every run through real loopback connections with scripted segmentations and cuts after every byte offset.',
+               'code on every run through real loopback connections with scripted segmentations and cuts after every byte offset. '
+               'Constants tie: 7 theorems consts_match_model_* restate the model functions with the numbers regenerated from the current '
+               'source (header size 4, type byte index and value, the 17-bit length mask, extension bit and shifts of Send and Receive, '
+               'the maximum length) in place of their literals; a changed constant in the source makes the theorem named after the '
+               'function fail.',
  'level_note': 'PARTIAL for real TCP behaviour: only the byte-stream abstraction is modelled (in-order delivery, close = end of stream); '
                'resets, timeouts, partial writes and concurrent use of one transport are not. Trusted: Lean kernel; axioms propext, '
-               'Classical.choice, Quot.sound; io.ReadFull / net.Conn contracts; the hand model is tied to the Go code only by differential '
-               'testing (bounded).'}
+               'Classical.choice, Quot.sound; io.ReadFull / net.Conn contracts; the hand model is tied to the Go code by differential '
+               'testing and, for the constants covered by consts_match_model_*, by regeneration from the source (control flow: '
+               'differential testing only, bounded).'}
